@@ -13,7 +13,7 @@
 (*  dt     element type: s d c z (geqrf/gesvd exist for double only)       *)
 (*  orient "row": view with unit inner stride; "col": its transpose (~X)   *)
 (*  pad    0: the view is the whole array; 1: a sub-block of a larger one  *)
-(*  m, n   view sizes (potrf: m = n)                                       *)
+(*  m, n   view sizes (potrf: m <= n, the matrix is the leading m x m block) *)
 (*  uplo   potrf: "L" (filling::lower) | "U" (filling::upper)              *)
 (*  plant  potrf: -1 = positive definite input, p >= 0 = the pivot at      *)
 (*         zero-based position p is made non-positive                      *)
@@ -28,7 +28,10 @@ CONSTANTS MaxN,        \* largest size
 PotrfCases ==
   {c \in [rt : {"potrf"}, dt : PotrfTypes, orient : {"row", "col"}, pad : {0, 1}, m : 1..MaxN, n : 1..MaxN,
           uplo : {"L", "U"}, plant : (-1)..(MaxN - 1), form : {"inplace"}, uvor : {"row"}, uvpad : {0}] :
-     c.m = c.n /\ c.plant < c.n}
+     \* square views, and views with fewer rows than columns: the matrix is then the leading m x m block (the order is the
+     \* number of rows, i.e. of items between begin() and end()); the remaining columns are not part of it and stay untouched
+     \* (only for views with unit inner stride: what a transposed view with unequal sizes means to potrf is not documented)
+     c.m <= c.n /\ c.plant < c.m /\ (c.m < c.n => c.orient = "row")}
 
 GeqrfCases ==
   [rt : {"geqrf"}, dt : {"d"}, orient : {"row", "col"}, pad : {0, 1}, m : 1..MaxN, n : 1..MaxN,
